@@ -239,3 +239,20 @@ package generic
 //@   ensures {C01,C20} flushdb: len(params.Command) == 1 && lower(garg(params, 0)) != lower("flushall") ==> result1 == nil && (forall k string :: !has(gstore(params), k))
 //@   ensures {C01,C20} flushdb-others: len(params.Command) == 1 && lower(garg(params, 0)) != lower("flushall") ==> (forall d int, k string :: d != dbof(params.Context) ==> (has($srv.store[d], k) <==> old(has($srv.store[d], k))) && $srv.store[d][k] == old($srv.store[d][k]))
 //@   ensures {C01,C20} flushall: len(params.Command) == 1 && lower(garg(params, 0)) == lower("flushall") ==> result1 == nil && (forall d int, k string :: has($srv.store, d) ==> !has($srv.store[d], k))
+
+// ---- GETEX key [PERSIST | EX s | PX ms | EXAT t | PXAT t]: replies the value; PERSIST removes the deadline, the others set it.
+//@ spec gex_new(params internal.HandlerFuncParams) Time = upper(garg(params, 2)) == "EX" ? $now + atoi(garg(params, 3)) * 1000000000 : (upper(garg(params, 2)) == "PX" ? $now + atoi(garg(params, 3)) * 1000000 : (upper(garg(params, 2)) == "EXAT" ? timeunix(atoi(garg(params, 3))) : (upper(garg(params, 2)) == "PXAT" ? timeunixmilli(atoi(garg(params, 3))) : zerotime)))
+//@ spec gex_known(o string) bool = upper(o) == "EX" || upper(o) == "PX" || upper(o) == "EXAT" || upper(o) == "PXAT" || upper(o) == "PERSIST"
+
+//@ func handleGetex props C04,C01,C12
+//@   requires henv(params)
+//@   assumes own-cmd: len(params.Command) >= 2 ==> disjointarr(params.Command, $srv.keysWithExpiry.keys[dbof(params.Context)])
+//@   ensures {C01} arity: len(params.Command) < 2 || len(params.Command) > 4 ==> result1 != nil
+//@   ensures {C01} missing: len(params.Command) >= 2 && len(params.Command) <= 4 && !old(glive(params, gkey(params))) ==> result1 == nil && bstr(result0) == "$-1\r\n" && gpure(params)
+//@   ensures {C04} plain: len(params.Command) == 2 && old(glive(params, gkey(params))) ==> result1 == nil && gdeadline(params, gkey(params)) == gcur(params)
+//@   ensures {C04} persist: (len(params.Command) == 3 || (len(params.Command) == 4 && atoiok(garg(params, 3)))) && upper(garg(params, 2)) == "PERSIST" && old(glive(params, gkey(params))) ==> result1 == nil && gdeadline(params, gkey(params)) == zerotime
+//@   ensures {C04} timed: len(params.Command) == 4 && atoiok(garg(params, 3)) && gex_known(garg(params, 2)) && upper(garg(params, 2)) != "PERSIST" && old(glive(params, gkey(params))) ==> result1 == nil && gdeadline(params, gkey(params)) == gex_new(params)
+//@   ensures {C04} unknown: len(params.Command) == 4 && atoiok(garg(params, 3)) && !gex_known(garg(params, 2)) && old(glive(params, gkey(params))) ==> result1 != nil && gdeadline(params, gkey(params)) == gcur(params)
+//@   ensures {C01} string: result1 == nil && old(glive(params, gkey(params))) && isstr(gval0(params)) ==> bstr(result0) == "+" ++ (asstr(gval0(params)) ++ "\r\n")
+//@   ensures {C04,C01} value: (has(gstore(params), gkey(params)) <==> old(has(gstore(params), gkey(params)))) && gstore(params)[gkey(params)].Value == old(gstore(params)[gkey(params)].Value)
+//@   ensures {C04,C20} others: forall k string :: k != gkey(params) && has(gstore(params), k) ==> old(has(gstore(params), k)) && gstore(params)[k] == old(gstore(params)[k])
